@@ -81,7 +81,11 @@ func init() {
 		Rule:      "every (N,T) with 1<=T<=N<=Nmax through helpers.ChunkSlice, and every (T, member) for N in {64,128,1024} through the real static-membership VBucketDiscovery.Get(); a case is non-trivial when T>1 (more than one chunk)",
 		Assume:    []string{"pure sequential code, no environment"},
 		Instances: func(tier string) []Instance {
-			return []Instance{{Scenario: "c09_regets", Params: mustJSON(struct{}{}), Bound: 0, Shards: 2, Note: "one discovery object asked three times while the numbering changes (dynamic membership through the bus)"}}
+			return []Instance{
+				{Scenario: "c09_regets", Params: mustJSON(struct{}{}), Bound: 0, Shards: 2, Note: "one discovery object asked three times while the numbering changes (dynamic membership through the bus)"},
+				{Scenario: "c09_getrace", Params: mustJSON(struct{}{}), Bound: 0, Shards: 2, Note: "a renumbering announced at every scheduling point of a running Get(): the result is the chunk of the old or of the new numbering"},
+				{Scenario: "c09_window", Params: mustJSON(struct{}{}), Bound: 0, Shards: 8, Note: "1..3 renumberings inside / outside one rebalance delay window of a real stream: the re-opened stream covers the chunk of the last numbering"},
+			}
 		},
 		Pure: func(tier string) *PureResult {
 			res := &PureResult{Exhaustive: true}
@@ -196,14 +200,16 @@ func lexLess(a, b [4]int) bool {
 }
 
 func c18Grid(tier string) [][4]int {
+	// around every gate (5.5.0, 6.5.0, 7.2.0), plus components >= 100 (a comparison that folds the tuple into
+	// one number with fixed weights is only wrong there)
 	maj := []int{0, 1, 4, 5, 6, 7, 8}
-	min := []int{0, 1, 2, 4, 5, 6}
-	pat := []int{0, 1, 2}
+	min := []int{0, 1, 2, 4, 5, 6, 99, 100, 101}
+	pat := []int{0, 1, 2, 99, 100, 150}
 	bld := []int{0, 1, 4200}
 	if tier == "quick" {
 		maj = []int{0, 5, 6, 7, 8}
-		min = []int{0, 2, 5, 6}
-		pat = []int{0, 1}
+		min = []int{0, 2, 5, 6, 100}
+		pat = []int{0, 1, 100}
 		bld = []int{0, 1, 4200}
 	}
 	var g [][4]int
